@@ -272,6 +272,8 @@ func ruleC15(w *World, r *Report) {
 		sort.Strings(bad)
 		r.Check(len(bad) == 0, "C15.owner/"+h.name, "WHO-MAY-CALL", funcName(target), w.Pos(target.Pos()), "reachable only from the governance content handler", "proposal handler is also called from: "+strings.Join(bad, ", "))
 	}
+	// an accepted privileged operation takes effect: the new rule table replaces the old one
+	k.routingStoreRule("C15.routing.store")
 	r.MinInstances("C15.", 30)
 }
 
